@@ -1,6 +1,6 @@
 (* C03: concrete streams, non-vacuity examples and refutation witnesses (all by vm_compute). *)
 From AV Require Import Lib.Base Lib.BytesX Generated.HttpGen Model.Http
-  Proofs.HttpSegBase Proofs.HttpSegChunk Proofs.HttpSeg.
+  Proofs.HttpSegBase Proofs.HttpSegChunk Proofs.HttpSeg Proofs.HttpSegDoom Proofs.HttpSegRej.
 Open Scope N_scope.
 
 Definition lim0 : limits := mkLimits default_max_line default_max_field default_max_headers MAX_MSG_QUEUE_SIZE.
@@ -96,3 +96,26 @@ Lemma refute_chunk_size_cr_boundary :
   digest (run_segs lim_c [] init [concat [wc_1; wc_2]] [] []) =
     (ROk [], [([80; 79; 83; 84], [47], [120], [1], true, @None herr)]).
 Proof. vm_compute. split; reflexivity. Qed.
+
+(* the one-read run of witness (b) returns normally but leaves a header block that can never be
+   completed into a message (Proofs/HttpSegDoom.v) *)
+Lemma ex_bare_lf_poisoned :
+  (let '(s, a, r) := feed lim0 [] init (wb_1 ++ wb_2) [] in (r, poisoned s, payload s, a)) =
+  (ROk [], true, None, []).
+Proof. vm_compute. reflexivity. Qed.
+
+(* hypotheses of the reject-direction theorem: met by the rejected example, and each of them
+   violated by exactly the witnesses it is there to exclude *)
+Lemma ex_rejected_hyps :
+  boundaries_ok lim0 [] init [ex_a; ex_bad_b; ex_b] [] = true /\
+  fail_complete lim0 [] init [ex_a; ex_bad_b; ex_b] [] = true.
+Proof. vm_compute. split; reflexivity. Qed.
+
+Lemma ex_hyps_exclude :
+  fail_complete lim_a [] init [wa_1; wa_2] [] = false /\
+  fail_complete lim0 [] init [wb_1; wb_2] [] = false /\
+  boundaries_ok lim_c [] init [wc_1; wc_2] [] = false /\
+  boundaries_ok lim_a [] init [wa_1; wa_2] [] = true /\
+  boundaries_ok lim0 [] init [wb_1; wb_2] [] = true /\
+  fail_complete lim_c [] init [wc_1; wc_2] [] = true.
+Proof. vm_compute. repeat split. Qed.
